@@ -414,7 +414,8 @@ def vecCheck (op : String) (a : List String) (impl : String) : Option (Bool × S
        -- |s + e| = √(2(1+cos)) < 1.5e-5 — the library's own tolerance; such cases are reported as in-band (`B`), not as agreement
        let opp := 1.0 + c < 1e-10
        let tol := if opp then 1e-9 else 1e-12 + 4e-15 / (1.0 + c)
-       let gap := if opp then Float.sqrt (2.0 * fabs (1.0 + c)) + 1e-9 else tol
+       -- (|s + e| is computed from the unit vectors themselves: 1 + cos cancels to 0 below 1e-8 rad)
+       let gap := if opp then fabs (su.x + eu.x) + fabs (su.y + eu.y) + fabs (su.z + eu.z) + 1e-9 else tol
        if fabs (n2 - 1.0) > tol then some (false, s!"VECID quaternion is not a unit quaternion: |q|^2 - 1 = {n2 - 1.0}")
        else if !(closeL (v3list r) (v3list eu) gap) then
          some (false, s!"VECID quaternion does not carry the first direction onto the second (residual {fabs (r.x - eu.x) + fabs (r.y - eu.y) + fabs (r.z - eu.z)})")
